@@ -416,10 +416,13 @@ def check_C26(tier):
     if mism:
         rep.harness_errors.append("determinism self-check failed")
     seen = set()
+    unreproduced = [0]
     for i, v in viol:
         if v["klass"] in seen:
             continue
         if v.get("ops") is None:
+            if unreproduced[0] >= 3:
+                continue        # three crashed runs could not be pinned on one history: reported below as a harness error, not retried for every run
             # a crashed worker: regenerate this run's histories and find the one that crashes in isolation
             rng = core.rng_for(prop, seed, i)
             cells_meta = mods
@@ -432,6 +435,7 @@ def check_C26(tier):
                     found = (ms["cell"], ops)
                     break
             if found is None:
+                unreproduced[0] += 1
                 seen.add("crash-unreproduced")
                 if "crash-unreproduced-reported" not in seen:
                     seen.add("crash-unreproduced-reported")
